@@ -13,18 +13,24 @@ def run_miri(run, units, extra_args=(), timeout=2400, head=""):
     t0 = time.time()
     info = {"units": len(units), "status": "not-run"}
     run.extra["miri"] = info
-    proj = run.path("miri_proj")
+    # fixed project location per property (cargo-miri records the package directory next to the cached binary);
+    # concurrent checks are serialised by a lock
+    import fcntl
+    base = os.path.join(core.TARGET, core.repokey(), "miri")
+    proj = os.path.join(base, "proj_%s" % run.pid.lower())
     os.makedirs(os.path.join(proj, "src"), exist_ok=True)
+    lockf = open(os.path.join(base, ".lock"), "w")
+    fcntl.flock(lockf, fcntl.LOCK_EX)
     open(os.path.join(proj, "Cargo.toml"), "w").write(
-        '[package]\nname = "verif_miri"\nversion = "0.0.0"\nedition = "2021"\n\n[dependencies]\n'
-        'strum = { path = "%s/strum", features = ["derive"] }\nvmon = { path = "%s/vmon" }\n\n[workspace]\n' % (core.REPO, core.VERIF))
+        '[package]\nname = "verif_miri_%s"\nversion = "0.0.0"\nedition = "2021"\n\n[dependencies]\n'
+        'strum = { path = "%s/strum", features = ["derive"] }\nvmon = { path = "%s/vmon" }\n\n[workspace]\n' % (run.pid.lower(), core.REPO, core.VERIF))
     lock = os.path.join(core.REPO, "Cargo.lock")
     if os.path.exists(lock):
         shutil.copy(lock, os.path.join(proj, "Cargo.lock"))
     src, _ = shards.shard_source(units, head)
     open(os.path.join(proj, "src", "main.rs"), "w").write(src)
     env = dict(core.ENV)
-    env["CARGO_TARGET_DIR"] = os.path.join(core.TARGET, core.repokey(), "miri")
+    env["CARGO_TARGET_DIR"] = os.path.join(base, "t")
     env.pop("RUSTFLAGS", None)
     args = [str(run.seed), "quick", "miri"] + list(extra_args)
     try:
